@@ -32,7 +32,11 @@
     F34               root_split_pinned_fails
     single-child      single_child_pinned_fails (pinned variant of the defect repaired by 5dad91e)
     tip-rooted inputs consensus_tip_root, consensus_tip_rooted_meets_oracle, tip_rooted_accepted (5a3a76a)
-    float64 product   fma_cut_exact, consensus_fma_cut, consensusCut_floorCut, float_product_pinned_fails
+    float64 product   fma_cut_exact, consensus_fma_cut (abstract rounding: monotone, fixes every integer — NOT
+                      the driver's `roundF64`, which fixes only 0 ≤ k < 2^53), consensusCut_floorCut,
+                      float_product_pinned_fails; for the rounding the driver runs: cutNow_exact,
+                      consensusNow_eq_consensus (thresholds in [0,1], fewer than 2^52 trees)
+    non-finite thr.   consensusThr_fin, nonfinite_threshold_rejected, nan_threshold_pinned_fails (def0221)
     oracle clause     oracle_lengths_where_defined
   `consensus_splits_partial` keeps its round-1 name: it is the complete one-step lemma `insertSplit_spec`
   (not a partial result), superseded by `consensus_exact` / `consensus_meets_oracle`.
@@ -1087,6 +1091,63 @@ theorem float_product_pinned_fails :
     the clause `consensus_meets_oracle` proves (`lengthsOK`). -/
 theorem oracle_lengths_where_defined (ts : List T) (r : T) (h : C09S.lengthsOK ts r = true) :
     C09S.lengthsOKWhereDefined ts r = true := lengthsOK_whereDefined ts r h
+
+/-! ### the cut of the code as it is, with the driver's own float64 rounding -/
+
+/-- `cutNow` — the float64 product rounded by `roundF64` (the rounding the driver runs and checks
+    against Go's arithmetic on every case), truncated and corrected with the exact sign of
+    `c·n - m` — is the exact `⌊c·n⌋` for thresholds in `[0, 1]` and fewer than 2^52 trees. -/
+theorem cutNow_exact (c : Rat) (n : Nat) (hc0 : 0 ≤ c) (hc1 : c ≤ 1) (hn : n < 4503599627370496) :
+    cutNow c n = floorCut c n := fmaCut_eq_floorCut c n hc0 hc1 hn
+
+/-- The driver's tie model `consensusNow` (= `consensusCut cutNow`) IS the `consensus` of the
+    theorems, for every collection of fewer than 2^52 trees. -/
+theorem consensusNow_eq_consensus (ord : List Entry → List Entry) (ts : List T) (c : Rat)
+    (hn : ts.length < 4503599627370496) : consensusNow ord ts c = consensus ord ts c := by
+  unfold consensusNow consensusCut consensus consensusG
+  by_cases hr : (decide (c < 1/2) || decide (c > 1)) = true
+  · rw [if_pos hr, if_pos hr]
+  · rw [if_neg hr, if_neg hr]
+    have hc : 0 ≤ c ∧ c ≤ 1 := by
+      simp only [Bool.or_eq_true, decide_eq_true_eq, not_or, Rat.not_lt] at hr
+      constructor <;> grind
+    unfold consensusCoreCut consensusCore
+    by_cases ha : ((ts.map rerootTip).any fun t => decide (t.kids.length < 2)) = true
+    · rw [if_pos ha, if_pos ha]
+    · rw [if_neg ha, if_neg ha]
+      cases hca : countAll true true (ts.map rerootTip) with
+      | error w => rfl
+      | ok o =>
+        cases o with
+        | none => rfl
+        | some cn =>
+          have hcn := (countAll_index _ cn hca).2.1
+          rw [List.length_map] at hcn
+          simp only [cutNow_exact c cn.n hc.1 hc.2 (by omega)]
+          rfl
+
+/-! ### thresholds that are not finite numbers (def0221) -/
+
+/-- A finite threshold: `consensusThr` is `consensus`. -/
+theorem consensusThr_fin (ord : List Entry → List Entry) (ts : List T) (c : Rat)
+    (hn : ts.length < 4503599627370496) : consensusThr ord ts (.fin c) = consensus ord ts c :=
+  consensusNow_eq_consensus ord ts c hn
+
+/-- NaN and ±Inf are rejected with the range error, whatever the collection. -/
+theorem nonfinite_threshold_rejected (ord : List Entry → List Entry) (ts : List T) :
+    consensusThr ord ts .nan = .err "range" ∧ ∀ b, consensusThr ord ts (.inf b) = .err "range" :=
+  ⟨rfl, fun _ => rfl⟩
+
+/-- The defect repaired by def0221: with the check `cutoff < 0.5 || cutoff > 1` a NaN threshold
+    passes, every row of the index is selected; on three copies of `((a,b),c,d)` the call
+    succeeded (with the split ab|cd) instead of being rejected. -/
+theorem nan_threshold_pinned_fails :
+    outValues (consensusThrPinnedNaN id [exNaN, exNaN, exNaN] .nan) = some [(["a", "b"], 1, 1)] ∧
+    (consensusThr id [exNaN, exNaN, exNaN] .nan).cls = "err" := by decide +kernel
+
+example : (0 : Rat) ≤ exFloatC ∧ exFloatC ≤ 1 ∧ (3 : Nat) < 4503599627370496 ∧
+    cutNow exFloatC 3 = 1 ∧ floatCut exFloatC 3 = 2 := by decide +kernel
+example : exColl.length < 4503599627370496 := by decide
 
 /-! ### the hypotheses of the round-2 theorems are satisfiable -/
 
